@@ -16,7 +16,7 @@ def mk(t, n, strat, ncols, band=None):
     regions = ldu_regions(t, n) + [treg('A', t, [n, n], 'in', init='undef'), rreg('x0', t, n * nc, role='in', init='sym'), treg('b', t, [n] if ncols == 0 else [n, ncols], 'in', init='undef'), treg('x', t, [n] if ncols == 0 else [n, ncols], 'out')]
     stages = [{'mod': 'ref', 'fn': '@R@pre', 'args': ['lam', 'del', 'mu', 'A']}, {'mod': 'ref', 'fn': '@R@rhs', 'args': ['A', 'x0', 'b']}, {'mod': 'wit', 'fn': '@W@', 'args': ['A', 'b', 'x']}]
     obl = [{'kind': 'equal', 'a': 'x', 'b': 'x0', 'cells': n * nc, 'mode': 'ALG'}]
-    return Witness('solve_%s_%s_%d_c%d%s' % (t, strat, n, ncols, '_band%d' % band if band else ''), 'solve.' + strat + ('.banded' if band else '.full'), {'type': t, 'n': n, 'strategy': strat, 'cols': ncols, 'band': band},
+    return Witness('solve_%s_%s_%d_c%d%s' % (t, strat, n, ncols, band_tag(band)), 'solve.' + strat + ('.banded' if isinstance(band, int) else ('.' + band if band else '.full')), {'type': t, 'n': n, 'strategy': strat, 'cols': ncols, 'band': band},
                    wit, ref, regions, stages, obl, extra={'poly_cap': 600000, 'max_steps': 300000000})
 
 
@@ -60,10 +60,13 @@ def witnesses(tier, seed):
                     if t == 'f32' and quick and (n > 4 or nc):
                         continue
                     W.append(mk(t, n, strat, nc))
-            for n in ([8, 9, 12, 16, 17] if quick else [9, 10, 12, 16, 17, 32, 33]):
+            for n in ([8, 9, 12, 16, 17, 40] if quick else [9, 10, 12, 16, 17, 32, 33, 40, 65, 80]):
                 if t == 'f32' and quick and n != 9:
                     continue
                 W.append(mk(t, n, strat, 0, band=1))
+                W.append(mk(t, n, strat, 0, band='arrow'))
+                if strat != 'SimpleInv':   # the inverse-based strategy forms the full inverse, whose entries grow too fast on the denser patterns
+                    W.append(mk(t, n, strat, 2, band='arrow1')); W.append(mk(t, n, strat, 0, band='hub'))
                 if n in (9, 17):
                     W.append(mk(t, n, strat, 3, band=1))
             for n in (2, 3, 5, 9):
